@@ -525,20 +525,20 @@ def attribution_table(o):
     return out
 
 
-def c13(obs):
+def c13(obs, prop='C13'):
     alt = obs.get('alt')
-    if alt is None: return []
+    if alt is None or obs.get('alt_prop', 'C13') != prop: return []
     v = []
     if alt.get('source') != obs.get('source'):
-        return [('C13', 'text differs from the equivalent composition: %r vs %r (%s)' % (obs.get('source'), alt.get('source'), obs.get('alt_kind')))]
+        return [(prop, 'text differs from the equivalent composition: %r vs %r (%s)' % (obs.get('source'), alt.get('source'), obs.get('alt_kind')))]
     a, b = attribution_table(obs), attribution_table(alt)
     for k in a:
         if k in b and a[k] != b[k]:
             i = next(i for i, (x, y) in enumerate(zip(a[k], b[k])) if x != y)
-            v.append(('C13', '%s: position/line #%d is attributed to %r here but to %r by the equivalent composition (%s)' % (k, i, a[k][i], b[k][i], obs.get('alt_kind'))))
+            v.append((prop, '%s: position/line #%d is attributed to %r here but to %r by the equivalent composition (%s)' % (k, i, a[k][i], b[k][i], obs.get('alt_kind'))))
     for k in ('c1f0', 'c0f0', 'c1f1', 'c0f1'):
         if k in obs['streams'] and k in alt['streams'] and obs['streams'][k]['end'] != alt['streams'][k]['end']:
-            v.append(('C13', '%s: end info %r vs %r in the equivalent composition' % (k, obs['streams'][k]['end'], alt['streams'][k]['end'])))
+            v.append((prop, '%s: end info %r vs %r in the equivalent composition' % (k, obs['streams'][k]['end'], alt['streams'][k]['end'])))
     return v
 
 
@@ -626,4 +626,5 @@ ALL['C07'] = c07
 ALL['C08'] = c08
 ALL['C05'] = c05
 ALL['C13'] = c13
+ALL['C10'] = lambda obs: c13(obs, 'C10')
 ALL['C06'] = c06
